@@ -23,6 +23,25 @@ Theorem C05_abort : forall H BNH outer s ops,
 Proof. exact D_safety.C05_abort_restores. Qed.
 Print Assumptions C05_abort.
 
+(* the same for a block opened on a batch trie (squash_changes inside squash_changes): leaving it by an
+   exception leaves the enclosing batch trie — its buffer, root and reference counts — exactly as it was *)
+Theorem C05_abort_nested : forall H BNH outer osc ops,
+  t_db outer = DScratch osc -> batch_abort outer (drun H BNH ops (batch_begin outer)) = outer.
+Proof. exact D_safety.C05_abort_nested. Qed.
+Print Assumptions C05_abort_nested.
+
+(* ... and its normal exit cannot fail: the block's buffer is replayed into the enclosing buffer (sreplay; its
+   effect on every key is C17_nested_commit), the enclosing layer's wrapped store is untouched, root and
+   counts are adopted.  That the resulting batch trie is again the trie of the writes that took effect is
+   tied by correspondence for nested blocks (DESIGN 10.2). *)
+Theorem C05_commit_nested : forall H BNH outer osc inner,
+  t_db outer = DScratch osc -> t_prune outer = true ->
+  batch_commit H BNH outer inner =
+  (Ok tt, with_root (with_refc (with_db outer (DScratch (sreplay true (cache (inner_scratch inner)) osc)))
+                               (t_refc inner)) (t_root inner)).
+Proof. exact D_safety.C05_commit_nested. Qed.
+Print Assumptions C05_commit_nested.
+
 Theorem C05_commit_fail_root : forall H BNH outer inner e t',
   t_prune outer = false -> batch_commit H BNH outer inner = (Err e, t') -> t_root t' = t_root outer.
 Proof. exact D_safety.C05_commit_fail_root. Qed.
